@@ -583,7 +583,7 @@ impl Check for C04 {
     fn meta(&self) -> Meta {
         Meta {
             level: "exploration",
-            rule: "peer behaviours of 1-5 unidirectional streams (control, push, QPACK encoder/decoder, WebTransport-uni, grease, other unknown, closed/reset before the type is complete, opened and left silent with no byte or a strict prefix of its type; type varints in every length form) whose control stream carries SETTINGS + legal frames with at most one deviation over {second/duplicate/reserved SETTINGS, GOAWAY ids, CANCEL_PUSH, MAX_PUSH_ID, DATA, HEADERS, PUSH_PROMISE, HTTP/2 types, unknown}, FIN or RESET at a drawn position; both roles; arrival order and chunking drawn, each behaviour replayed under a second chunking; the endpoint's own outgoing side suffers drawn write pends/partial acceptance and stream-credit shortage (credit for the 4th, grease, stream withheld for ever or granted late); non-trivial = a control stream with >= 2 frames was delivered in >= 2 chunks or credit was short; distinct = distinct schedule signatures",
+            rule: "peer behaviours of 1-5 unidirectional streams (control, push, QPACK encoder/decoder, WebTransport-uni, grease, other unknown, closed/reset before the type is complete, opened and left silent with no byte or a strict prefix of its type; type varints in every length form) whose control stream carries SETTINGS + legal frames with at most one deviation over {second/duplicate/reserved SETTINGS, GOAWAY ids, CANCEL_PUSH, MAX_PUSH_ID, DATA, HEADERS, PUSH_PROMISE, HTTP/2 types, unknown}, FIN or RESET at a drawn position; one run in ten is the template control + encoder + decoder, all identified, then a late duplicate of one of them; both roles; arrival order and chunking drawn, each behaviour replayed under a second chunking; the endpoint's own outgoing side suffers drawn write pends/partial acceptance and stream-credit shortage (credit for the 4th, grease, stream withheld for ever or granted late); non-trivial = a control stream with >= 2 frames was delivered in >= 2 chunks or credit was short; distinct = distinct schedule signatures",
             real: &["h3 connection driver (ConnectionInner::poll_control / poll_accept_recv / grease stream)", "h3 server and client Connection", "AcceptRecvStream, FrameStream, frame decoder, settings application"],
             stub: &["QUIC transport (SimQuic)", "executor (simexec)", "peer (script of raw uni-stream actions)", "application (accept loop / poll_close driver + a probing request)"],
             assumptions: &["unknown frame before SETTINGS, CANCEL_PUSH to a client, push streams and a RESET control stream whose type may be overtaken are left unconstrained", "two independent causes in one run admit either code"],
@@ -616,11 +616,28 @@ impl Check for C04 {
             }
             streams.push(gen_stream(kind, role_server));
         }
+        // one run in ten: the three regular streams first, completely identified, and only then a duplicate
+        // of one of them (a late duplicate is detected by other code paths than one that arrives together
+        // with the originals)
+        let late_duplicate = draw(10) == 9;
+        if late_duplicate {
+            streams.clear();
+            for k in [Kind::Control, Kind::Encoder, Kind::Decoder, pick(&[Kind::Control, Kind::Encoder, Kind::Decoder]).clone()] {
+                streams.push(gen_stream(k, role_server));
+            }
+            if draw(2) == 1 {
+                streams.push(gen_stream(pick(&[Kind::Grease, Kind::Silent, Kind::WtUni]).clone(), role_server));
+            }
+            obs::count("probe.late_duplicate_critical_stream");
+        }
+        let n = streams.len();
         // arrival order is drawn via the order in which the peer opens them + the scheduler
         let mut order: Vec<usize> = (0..n).collect();
         for i in (1..n).rev() {
             let j = draw_usize(i + 1);
-            order.swap(i, j);
+            if !late_duplicate {
+                order.swap(i, j);
+            }
         }
         let grease = draw(3) != 2;
         let credit = match draw(4) {
